@@ -455,9 +455,8 @@ func ComposeCrud(u *Universe, rng *rand.Rand, firstID int) []*Model {
 			plain("Weight", basic("float64")),
 			plain("Labels", ref("Flags")), // a jsonb map: every scanned row must get its own value
 		}}
-		if rng.Intn(2) == 0 {
-			link.Fields = append(link.Fields, Field{Name: "Opt", Exported: true, TE: ref("OptId"), Guard: noGuard, Foreign: "Other", OnDelete: "SET NULL"})
-		}
+		// a nullable foreign key: Delete compares it with a NULL guard
+		link.Fields = append(link.Fields, Field{Name: "Opt", Exported: true, TE: ref("OptId"), Guard: noGuard, Foreign: "Other", OnDelete: "SET NULL"})
 		if rng.Intn(3) == 0 {
 			link.Comments = append(link.Comments, "gomacro:SQL ADD UNIQUE(Par)")
 		}
